@@ -265,10 +265,30 @@ theorem abstract_signer_is_filepv {e : Node04.Env} (he : Node04.EnvOK e) {c : Co
     (t : Int) (q : Req) (hq : e.reqOf t o = some q) :
     (∀ s', Cons.sign c s round code p = some s' →
       ∃ disk' rel' sb sig, call sigOf ⟨disk, disk, .idle, rel⟩ q none = (⟨disk', disk', .idle, rel'⟩, .ok sb sig) ∧
-        s'.lss = e.absLss disk' ∧ Node04.Good e disk') ∧
+        s'.lss = e.absLss disk' ∧ Node04.Good e disk' ∧ rel'.length = rel.length + 1) ∧
     (Cons.sign c s round code p = none →
       ∃ er, call sigOf ⟨disk, disk, .idle, rel⟩ q none = (⟨disk, disk, .idle, rel⟩, .err er)) :=
   Node04.sign_refines he hc sigOf disk rel hg s hs o round code p hk t q hq
+
+/-- **The composed system is a refinement, input by input.** The call-by-call agreement chained
+through all of `Cons.step` (which may sign several times and handle the node's own messages): on
+an idle `Good` real signer, after the consensus model handled ANY input with its abstract signer
+set to the abstraction of the state file, every request it released is answered by the real
+signer with a signature (the journal grows by exactly their number — nothing the model released is
+refused, nothing else is signed), the real signer is idle and `Good` again and its abstraction is
+the model's final `lss`. Hence the re-abstraction `Node04.consStep` performs before each input is
+the identity, and `Props.C02.one_per_step` (about `Cons.run`'s outputs) and `released_consistent`
+(about the key's journal) speak about the same signatures. Hypothesis: the node did not panic
+while handling the input (a panic is the death of the process, i.e. a crash event). -/
+theorem composed_step_refines {e : Node04.Env} (he : Node04.EnvOK e) {c : Cons.Cfg} (hc : c.checkHRS = true)
+    (sigOf : SB → Sig) (disk : LSS Sig) (rel : List (Rel Sig)) (hg : Node04.Good e disk)
+    (ns : Cons.NodeState) (i : Cons.Input) (t : Int)
+    (hh : (Node04.consStep e c ns ⟨disk, disk, .idle, rel⟩ i t).1.halted = false) :
+    ∃ disk' rel', Node04.signAll sigOf ⟨disk, disk, .idle, rel⟩ (Node04.consStep e c ns ⟨disk, disk, .idle, rel⟩ i t).2 =
+        ⟨disk', disk', .idle, rel'⟩ ∧ Node04.Good e disk' ∧
+      (Node04.consStep e c ns ⟨disk, disk, .idle, rel⟩ i t).1.lss = e.absLss disk' ∧
+      rel'.length = rel.length + (Node04.consStep e c ns ⟨disk, disk, .idle, rel⟩ i t).2.length :=
+  Node04.step_refines he hc sigOf disk rel hg ns i t hh
 
 /-- **A re-proposal that differs is refused.** `createProposalBlock` reads the mempool, which is not
 in the WAL, so after a crash the proposer may build another block (`c.ownBlock` differs) or see
@@ -456,6 +476,10 @@ example : Node04.EnvOK exEnv :=
    fun b => by simp [exEnv, bidIsZero],
    fun b => by simp [exEnv]⟩
 example : Node04.Good exEnv (genesis : LSS SB) := Or.inl (by decide)
+/-- hypothesis of `composed_step_refines`: handling the first timeout does not panic; the single
+validator releases proposal, prevote and precommit while handling it -/
+example : (Node04.consStep exEnv exCfg .init (init (genesis : LSS SB)) (.timeout 0 .newHeight) 10).1.halted = false ∧
+    (Node04.consStep exEnv exCfg .init (init (genesis : LSS SB)) (.timeout 0 .newHeight) 10).2.length = 3 := by decide
 /-- the node dies after the rename of its proposal's sign state (time 10); replay at time 20 gets
 the persisted proposal signature back (message time 10) and goes on to prevote and precommit;
 after another crash the replayed proposal request is below the state file and refused: the
